@@ -136,6 +136,28 @@ func (l *Lexer) FindLineIdx(cursor int, startLoopIdx int) int {
 	})
 }
 
+// CloseLineText - record the text of the current (last) line, which ends at endCursor.
+// parseLine does this at an ordinary line break; a line break inside a multi-line text or
+// comment is read by the token parser, which has to do it too - otherwise a statement
+// whose line ends inside such a token has no text to quote in an error report
+func (l *Lexer) CloseLineText(endCursor int) {
+	if len(l.Lines) == 0 {
+		return
+	}
+	lastLine := &(l.Lines[len(l.Lines)-1])
+	startIdx := lastLine.StartIdx
+	// skip INDENTS when inserting source text
+	if l.IndentType == IndentSpace {
+		startIdx += 4 * lastLine.Indents
+	} else if l.IndentType == IndentTab {
+		startIdx += lastLine.Indents
+	}
+	if startIdx > endCursor {
+		startIdx = endCursor
+	}
+	lastLine.LineText = l.Source[startIdx:endCursor]
+}
+
 func (l *Lexer) GetLineInfo(idx int) *LineInfo {
 	if idx < len(l.Lines) {
 		return &l.Lines[idx]
